@@ -171,6 +171,9 @@ void thr_yield_point(uintptr_t site, const char *) {
 	int me = g_thr.current;
 	if (me < 0) return;
 	g_thr.yield_points++;
+	// pre-emption bound: two threads spinning on memory they share would otherwise trade the baton forever at syscall speed;
+	// past the bound threads run to completion one after the other, and a spinner meets the access cap at full speed
+	if (g_thr.switches >= g_thr.max_switches) return;
 	if (!g_thr.sched.chance(g_thr.switch_num, g_thr.switch_den)) return;
 	int next = pick_other(me);
 	if (next < 0) return;
@@ -227,11 +230,17 @@ static inline bool on_worker_stack(uintptr_t a) {
 	for (int t = 0; t < g_thr.nthreads; t++) if (a >= stack_lo[t] && a < stack_hi[t]) return true;
 	return false;
 }
+uint64_t g_thr_step_cap = 0;
 void thr_access(uintptr_t addr, int size, bool is_write, uintptr_t pc) {
 	if (!g_thr.enabled || in_tracker) return;
 	int t = g_thr.current;
 	if (t < 0 || t > 3) return;
 	g_thr.accesses++;
+	if (g_thr_step_cap && g_thr.accesses > g_thr_step_cap) {
+		// the simulator's watchdog counts instrumented accesses, never seconds: a thread spinning on corrupted state ends the run deterministically
+		if (write(3, "STEPCAP accesses\n", 17)) {}
+		_exit(EXIT_STEPCAP);
+	}
 	bool yield_wanted = false;
 	{
 	TrackerScope ts;
@@ -313,6 +322,17 @@ extern "C" {
 	void free(void * p) { if (p && cells_used) thr_drop_range(p, malloc_usable_size(p)); __libc_free(p); }
 	void * realloc(void * p, size_t n) { if (p && cells_used) thr_drop_range(p, malloc_usable_size(p)); return __libc_realloc(p, n); }
 
+	void exit(int code) {
+		// the library calls exit() in a few places (html.c default branch, d_string.c on failed realloc): classify instead of vanishing
+		if (g_thr.enabled && g_thr.current >= 0) {
+			char buf[64];
+			int n = snprintf(buf, sizeof buf, "LIBEXIT %d\n", code);
+			if (write(3, buf, n)) {}
+			_exit(EXIT_LIBEXIT);
+		}
+		fflush(NULL);
+		_exit(code);
+	}
 	int rand(void) {
 		if (g_thr.enabled && g_thr.current >= 0) { g_thr.rand_draws_by[g_thr.current]++; thr_yield_point(PC, "rand"); }
 		g_sim.rand_draws++;
